@@ -153,6 +153,18 @@ def run_case(case, tier):
             viol.append({"cls": "analysis-changes-outcome", "msg": "exception %r with analysis, %r without" % (on.exc, off.exc)})
         classes.append("raised")
         return util.finish(case, viol, counts, classes, False, desc, inconclusive="raised")
+    # the search called directly on a conformation (its public method, default arguments: no display
+    # requested) must leave the finished results as they are
+    if on.mol is not None:
+        for cname in on.rec["names"][:2]:
+            conf = on.mol.conformations[cname]
+            before = obs.conformation_record(conf)
+            conf.find_non_covalently_coupled_groups()
+            after = obs.conformation_record(conf)
+            counts["direct_search_calls"] = counts.get("direct_search_calls", 0) + 1
+            d = obs.compare_confs(before, after, tol=0.0)
+            if d:
+                viol.append({"cls": "direct-search-changes-results", "msg": "%s.find_non_covalently_coupled_groups() changed: %s" % (cname, obs.brief(d, 4))})
     diffs = obs.compare_runs(on, off, tol=1e-9)
     counts["onoff_comparisons"] = 1
     if diffs:
